@@ -186,6 +186,27 @@ def Loc : List JV → JV → JV → Prop
 /-- the (top-level) keys of an association list are pairwise different -/
 def DistinctKeys (kvs : List (Bytes × JV)) : Prop := kvs.Pairwise fun a b => b.1 ≠ a.1
 
+/-! ## the events `Stream.fromstreamSpec` models -/
+
+/-- path elements on which C16's `Stream.setpath` (the fragment of `setpath` inside
+    `fromstreamSpec`) agrees with `setpath` in success AND failure: strings, integers
+    `0 ≤ i < 2^29`, and elements every `setpath` rejects (null, booleans, arrays).  Not: other
+    numbers (real `setpath` truncates them, takes negatives from the end, rejects ≥ 2^29), slice
+    objects. -/
+def elemOK : JV → Bool
+  | .num (.int i) => decide (0 ≤ i) && decide (i < 536870912)
+  | .num _ => false
+  | .obj _ => false
+  | _ => true
+
+/-- events on which `Stream.fromstreamSpec` models the shipped `fromstream`: well-formed
+    `[path, leaf]` / `[path]` events with modelled path elements.  (The shipped definition accepts
+    more without an error: `null` events, `["x"]`, three-element events.) -/
+def eventOK : JV → Bool
+  | .arr [.arr p, _] => p.all elemOK
+  | .arr [.arr _] => true
+  | _ => false
+
 /-! ## size conditions under which Go's `int` indices and `setpath`'s index limit are not met -/
 
 mutual
